@@ -155,6 +155,16 @@ def run(tier: str) -> int:
     return chk.finish()
 
 
+def selftest(tier: str) -> int:
+    """In-process mutation probes (monkeypatched library, never /repo): each must be killed."""
+    from . import boot
+    from .core import run_probes
+    boot.setup()
+    allp = djc.standard_probes()
+    probes = [(n, allp[n]) for n in ['is_filled-always-true', 'fills-named-b-dropped', 'default-flag-fallback-dropped', 'slot-data-alias-lost']]
+    return run_probes(PID, probes, lambda chk: body(chk, mc_nodes=2, n_random=300, n_variants=60, deep=3))
+
+
 def replay(path: str) -> int:
     from . import boot
     boot.setup()
